@@ -15,7 +15,7 @@ from ..hyp import draw_cases
 PROPERTY = "C16"
 RULE = ("one-shot: Hypothesis-generated and adversarial binary tensor pairs (all-equal, all-different, a single difference at every position, random) x shapes 1-D..3-D x "
         "block sizes (divisors; non-divisors must raise) x real/complex forms, for BitErrorRate, BlockErrorRate (and its SER/FER aliases) and the StandardMetrics helpers; "
-        "histories: every sequence of length<=4 (thorough 6) over {update(b1),update(b2),update(b3),compute,reset}, Hypothesis RuleBasedStateMachine histories (update/compute/"
+        "histories: every sequence of length<=5 (thorough 6) over {update(b1),update(b2),update(b3),compute,reset}, Hypothesis RuleBasedStateMachine histories (update/compute/"
         "reset/forward) up to 50 (thorough 200) steps, and partitions of one data set cut and ordered at generated points. Non-trivial: history with an update after a reset or "
         ">=2 updates of different sizes; one-shot: 0<errors<total. Distinct = (metric, history or input hash).")
 ASSUMPTIONS = ["reference counters are exact Python integers (kverif/props/c16.py:Model); rates compared as float32(count/total) within 1 float32 ulp",
@@ -112,6 +112,10 @@ def run_history(ctx, kind, B, ops, complex_=False, label="history"):
         elif op[0] == "reset":
             m.reset()
             model.reset()
+        # compute() is only called where the history says so (and at the very end): calling it after every step
+        # would hide state that goes stale between two computes
+        if op[0] != "compute" and step != len(ops) - 1:
+            continue
         got = m.compute()
         ctx.ev()
         if not close(got, model.value()):
@@ -146,7 +150,7 @@ _LAST = {}
 
 
 def unit_histories_stateful(ctx, kind, B, steps, examples, complex_):
-    """Hypothesis RuleBasedStateMachine: update / compute / reset / forward, invariant after every step."""
+    """Hypothesis RuleBasedStateMachine: update / compute / reset / forward, compared at every compute of the history and at its end."""
     import torch
     cell = {"metric": kind, "block_size": B, "form": "complex" if complex_ else "real", "mode": "stateful"}
     counter = {"runs": 0, "nontrivial": set()}
@@ -169,6 +173,8 @@ def unit_histories_stateful(ctx, kind, B, steps, examples, complex_):
         @rule()
         def compute(self):
             self.ops.append(["compute"])
+            _LAST["ops"] = list(self.ops)
+            assert close(self.m.compute(), self.model.value()), "streaming value differs from the reference counters"
 
         @rule()
         def reset(self):
@@ -179,18 +185,12 @@ def unit_histories_stateful(ctx, kind, B, steps, examples, complex_):
         @rule(i=st.integers(0, 11))
         def forward(self, i):
             x, y = pool_batch(i, complex_)
-            before = float(self.m.compute())
             self.m(torch.from_numpy(x), torch.from_numpy(y))
             self.ops.append(["forward", i])
-            _LAST["ops"] = list(self.ops)
-            assert close(self.m.compute(), np.float32(before)) or close(self.m.compute(), self.model.value()), "forward disturbed the running state"
-
-        @invariant()
-        def agrees(self):
-            _LAST["ops"] = list(self.ops)
-            assert close(self.m.compute(), self.model.value()), "streaming value differs from the reference counters"
 
         def teardown(self):
+            _LAST["ops"] = list(self.ops) + [["compute"]]
+            assert close(self.m.compute(), self.model.value()), "streaming value differs from the reference counters at the end of the history"
             sizes = {pool_batch(o[1])[0].shape[0] for o in self.ops if o[0] == "update"}
             if len(sizes) >= 2 or any(o[0] == "reset" for o in self.ops):
                 counter["nontrivial"].add(str(self.ops))
@@ -342,7 +342,7 @@ def units(tier, seed):
     T = tier == "thorough"
     us = []
     for kind, B, cx in (("ber", None, False), ("ber", None, True), ("bler", None, False), ("bler", 4, False), ("bler", 2, True), ("ser", 8, False), ("fer", None, False)):
-        us.append(Unit(f"hist_exh_{kind}_{B}_{'c' if cx else 'r'}", "c16:unit_histories_exhaustive", {"kind": kind, "B": B, "maxlen": 6 if T else 4, "complex_": cx}, 6 if T else 2))
+        us.append(Unit(f"hist_exh_{kind}_{B}_{'c' if cx else 'r'}", "c16:unit_histories_exhaustive", {"kind": kind, "B": B, "maxlen": 6 if T else 5, "complex_": cx}, 6 if T else 3))
         us.append(Unit(f"hist_sm_{kind}_{B}_{'c' if cx else 'r'}", "c16:unit_histories_stateful", {"kind": kind, "B": B, "steps": 200 if T else 50, "examples": 300 if T else 60, "complex_": cx}, 5))
     us.append(Unit("oneshot", "c16:unit_oneshot", {"n_gen": 4000 if T else 500}, 5))
     us.append(Unit("partitions", "c16:unit_partitions", {"n_gen": 4000 if T else 500}, 3))
